@@ -73,3 +73,21 @@ package args
 //@   ensures [C10] stored: result == nil ==> has(a.Values, key) && storedExactly(val, a.Values[key]) && intsInBounds(a.Values[key])
 //@   ensures [C10] rejected: result != nil ==> (forall k string :: has(a.Values, k) == old(has(a.Values, k))) && a.Keys == old(a.Keys)
 //@   assigns a.Values, a.Keys, a
+//@
+//@ // ---- C20: the read-only facade forwards to the operations above and writes nothing itself ---------
+//@ func (ReadOnly).GetNode
+//@   requires r.args != nil
+//@   assigns [C20] nothing
+//@ func (ReadOnly).Iter
+//@   requires r.args != nil
+//@   assigns [C20] nothing
+//@ func (ReadOnly).ToIPLD
+//@   requires r.args != nil
+//@   assigns [C20] nothing
+//@ func (ReadOnly).Equals
+//@   requires r.args != nil && other.args != nil
+//@   assigns [C20] nothing
+//@ func (ReadOnly).String
+//@   requires r.args != nil
+//@   assigns [C20] nothing
+//@ // (ReadOnly).WriteableClone stays without a contract: see DESIGN.md 7.3 (fields of a fresh result of a frame-free callee)
